@@ -25,12 +25,22 @@ ASSUMPTIONS = ['kv/spine.py depth-first order', 'kv/cats.py closure',
 
 @st.composite
 def cases(draw):
-    doc = draw(D.documents(D.profile('full')))
-    # extra global comments anywhere (they are not cells, so any position is legal)
+    doc = draw(D.documents(D.profile('full', hidden_bars=True)))
     from .. import grammar as G
+    # the same notes written a second time with their signifiers placed differently: distinct encodings, same export
+    data_rows = [i for i, r in enumerate(doc['rows']) if 'c' in r and any('notes' in c for c in r['c'])
+                 and all(c['k'] in ('note', 'rest', 'chord', 'null', 'text') for c in r['c'])]
+    if data_rows and draw(st.booleans()):
+        i = draw(st.sampled_from(data_rows))
+        copy_ = {'c': [G.rerender(c, [draw(G.layouts(n)) for n in c['notes']]) if 'notes' in c else dict(c) for c in doc['rows'][i]['c']]}
+        doc['rows'].insert(i + 1, copy_)
+    # extra global comments anywhere (they are not cells, so any position is legal); repeated ones included
     for _ in range(draw(st.integers(0, 3))):
         pos = draw(st.integers(0, len(doc['rows'])))
         doc['rows'].insert(pos, {'g': draw(G.global_comments())})
+    glob = [r['g'] for r in doc['rows'] if 'g' in r]
+    if glob and draw(st.integers(0, 2)) == 0:
+        doc['rows'].insert(draw(st.integers(0, len(doc['rows']))), {'g': draw(st.sampled_from(glob))})
     filters = [draw(st.lists(st.sampled_from(cats.ALL), max_size=5, unique=True)) for _ in range(6)]
     return {'doc': doc, 'filters': filters, 'shape': draw(st.sampled_from(['list', 'set', 'tuple']))}
 
